@@ -230,3 +230,69 @@ def polyline_crosses_shrunk_box(pts, xmin, ymin, xmax, ymax, eps):
         if segment_crosses_shrunk_box(pts[i], pts[i + 1], xmin, ymin, xmax, ymax, eps):
             return True
     return False
+
+
+
+# ---------------------------------------------------------------------------
+# smallest enclosing circle (incremental construction; independent of tracklib's Welzl recursion)
+def _circle_two(a, b):
+    cx, cy = (a[0] + b[0]) / 2.0, (a[1] + b[1]) / 2.0
+    return (cx, cy, max(math.hypot(cx - a[0], cy - a[1]), math.hypot(cx - b[0], cy - b[1])))
+
+
+def _circle_three(a, b, c):
+    ox = (min(a[0], b[0], c[0]) + max(a[0], b[0], c[0])) / 2.0
+    oy = (min(a[1], b[1], c[1]) + max(a[1], b[1], c[1])) / 2.0
+    ax, ay, bx, by, cx, cy = a[0] - ox, a[1] - oy, b[0] - ox, b[1] - oy, c[0] - ox, c[1] - oy
+    d = (ax * (by - cy) + bx * (cy - ay) + cx * (ay - by)) * 2.0
+    if d == 0.0:
+        return None
+    x = ox + ((ax * ax + ay * ay) * (by - cy) + (bx * bx + by * by) * (cy - ay) + (cx * cx + cy * cy) * (ay - by)) / d
+    y = oy + ((ax * ax + ay * ay) * (cx - bx) + (bx * bx + by * by) * (ax - cx) + (cx * cx + cy * cy) * (bx - ax)) / d
+    return (x, y, max(math.hypot(x - p[0], y - p[1]) for p in (a, b, c)))
+
+
+def _in_circle(c, p):
+    return c is not None and math.hypot(p[0] - c[0], p[1] - c[1]) <= c[2] * (1 + 1e-12) + 1e-12
+
+
+def _circle_two_points(points, p, q):
+    circ = _circle_two(p, q)
+    left = right = None
+    for r in points:
+        if _in_circle(circ, r):
+            continue
+        cross = (q[0] - p[0]) * (r[1] - p[1]) - (q[1] - p[1]) * (r[0] - p[0])
+        c = _circle_three(p, q, r)
+        if c is None:
+            continue
+        cc = (q[0] - p[0]) * (c[1] - p[1]) - (q[1] - p[1]) * (c[0] - p[0])
+        if cross > 0.0 and (left is None or cc > (q[0] - p[0]) * (left[1] - p[1]) - (q[1] - p[1]) * (left[0] - p[0])):
+            left = c
+        elif cross < 0.0 and (right is None or cc < (q[0] - p[0]) * (right[1] - p[1]) - (q[1] - p[1]) * (right[0] - p[0])):
+            right = c
+    if left is None and right is None:
+        return circ
+    if left is None:
+        return right
+    if right is None:
+        return left
+    return left if left[2] <= right[2] else right
+
+
+def _circle_one_point(points, p):
+    c = (p[0], p[1], 0.0)
+    for i, q in enumerate(points):
+        if not _in_circle(c, q):
+            c = _circle_two(p, q) if c[2] == 0.0 else _circle_two_points(points[:i + 1], p, q)
+    return c
+
+
+def min_enclosing_circle(points):
+    """(cx, cy, r) of the smallest circle containing the points (duplicates allowed)."""
+    pts = [(float(p[0]), float(p[1])) for p in points]
+    c = None
+    for i, p in enumerate(pts):
+        if c is None or not _in_circle(c, p):
+            c = _circle_one_point(pts[:i + 1], p)
+    return c
